@@ -20,11 +20,12 @@ func init() {
 // The reviewed census of R20.2 is keyed by REGION of the SACK implementation and kind of cause, not by function names or
 // message text (moving a switch arm into a method, extracting the socket set-up into a helper or rewording a message is not
 // a change of behaviour):
-//   recv      – the call tree of the SACK driver's ReceiveProbe: exactly one verdict, created under a guard on the reply
-//               (an acknowledgement without SACK blocks);
-//   handshake – the call tree of ReadHandshake outside recv: exactly one verdict under a guard (SYN-ACK without SACK-permitted);
-//   setup     – the rest of RunSackTraceroute's tree: any failure of the function that dials the target (io), and exactly one
-//               verdict created under a guard / state test (the platform cannot hold a second socket on the port).
+//
+//	recv      – the call tree of the SACK driver's ReceiveProbe: exactly one verdict, created under a guard on the reply
+//	            (an acknowledgement without SACK blocks);
+//	handshake – the call tree of ReadHandshake outside recv: exactly one verdict under a guard (SYN-ACK without SACK-permitted);
+//	setup     – the rest of RunSackTraceroute's tree: any failure of the function that dials the target (io), and exactly one
+//	            verdict created under a guard / state test (the platform cannot hold a second socket on the port).
 type nsSite struct {
 	region string
 	fn     *ssa.Function
@@ -83,50 +84,124 @@ func notSupportedCensus(c *Ctx) (sites []nsSite, counts map[string]int, anchors 
 				if !ok || wrapperTag(mi.X.Type()) != "NotSupported" {
 					continue
 				}
+				// the literal itself, or the result of a constructor that returns *NotSupportedError
+				var viaCtor []ErrClass
 				if _, isAlloc := mi.X.(*ssa.Alloc); !isAlloc {
-					continue
+					call, isCall := mi.X.(*ssa.Call)
+					if !isCall || call.Common().StaticCallee() == nil {
+						continue
+					}
+					g := call.Common().StaticCallee()
+					idx := ctorResultParam(g)
+					if idx < 0 || idx >= len(call.Common().Args) {
+						continue
+					}
+					viaCtor = ea.classOf(call.Common().Args[idx], f, map[ssa.Value]bool{}).sorted()
+					if len(viaCtor) == 0 {
+						continue
+					}
 				}
-				region := regionOf(f)
-				for _, e := range ea.classOf(mi, f, map[ssa.Value]bool{}).sorted() {
-					st := nsSite{region: region, fn: f, pos: mi.Pos(), origin: e.Origin, cause: e.Cause}
-					dial := false
-					if e.Fn != nil {
-						for _, g := range ModReach(c.P, e.Fn) {
-							if len(dialCalls(c, []*ssa.Function{g})) > 0 {
-								dial = true
-							}
+				// a constructor (`func unsupported(cause error) error { return &NotSupportedError{Err: cause} }`): the verdicts
+				// are its call sites, classified by the argument they pass
+				type occ struct {
+					fn  *ssa.Function
+					pos token.Pos
+					cls []ErrClass
+				}
+				var occs []occ
+				if prm := ctorParam(mi); prm != nil && viaCtor == nil {
+					idx := -1
+					for k, q := range f.Params {
+						if q == prm {
+							idx = k
 						}
 					}
-					kind := ""
-					switch {
-					case region == "setup" && dial && e.Fn != f:
-						kind = "setup/dial"
-						st.ok, st.why = true, "failure of the function that dials the target"
-					case region == "setup" && (e.Cause == "guard" || e.Cause == "state"):
-						kind = "setup/guard"
-						st.ok, st.why = true, "verdict created under a test of the platform / socket state"
-					case region == "handshake" && e.Cause == "guard":
-						kind = "handshake/guard"
-						st.ok, st.why = true, "verdict created under a guard on the handshake reply"
-					case region == "recv" && e.Cause == "guard":
-						kind = "recv/guard"
-						st.ok, st.why = true, "verdict created under a guard on the reply"
-					default:
-						st.why = "a " + e.Cause + " failure in the " + region + " region"
+					if n := c.P.CallGraph().Nodes[f]; n != nil && idx >= 0 {
+						for _, ie := range n.In {
+							if ie.Caller.Func == nil || !core.InModule(ie.Caller.Func) || ie.Site.Common().IsInvoke() {
+								continue
+							}
+							args := ie.Site.Common().Args
+							off := len(f.Params) - len(args)
+							if off < 0 || idx-off < 0 || idx-off >= len(args) {
+								continue
+							}
+							occs = append(occs, occ{ie.Caller.Func, ie.Site.Pos(), ea.classOf(args[idx-off], ie.Caller.Func, map[ssa.Value]bool{}).sorted()})
+						}
 					}
-					if kind != "" && kind != "setup/dial" && !seen[kind+"|"+e.Origin] {
-						seen[kind+"|"+e.Origin] = true
-						counts[kind]++
+				}
+				if viaCtor != nil {
+					occs = []occ{{f, mi.Pos(), viaCtor}}
+				}
+				if len(occs) == 0 {
+					occs = []occ{{f, mi.Pos(), ea.classOf(mi, f, map[ssa.Value]bool{}).sorted()}}
+				}
+				for _, oc := range occs {
+					f := oc.fn
+					region := regionOf(f)
+					for _, e := range oc.cls {
+						st := nsSite{region: region, fn: f, pos: oc.pos, origin: e.Origin, cause: e.Cause}
+						dial := false
+						if e.Fn != nil {
+							for _, g := range ModReach(c.P, e.Fn) {
+								if len(dialCalls(c, []*ssa.Function{g})) > 0 {
+									dial = true
+								}
+							}
+						}
+						kind := ""
+						switch {
+						case region == "setup" && dial && e.Fn != f:
+							kind = "setup/dial"
+							st.ok, st.why = true, "failure of the function that dials the target"
+						case region == "setup" && (e.Cause == "guard" || e.Cause == "state"):
+							kind = "setup/guard"
+							st.ok, st.why = true, "verdict created under a test of the platform / socket state"
+						case region == "handshake" && e.Cause == "guard":
+							kind = "handshake/guard"
+							st.ok, st.why = true, "verdict created under a guard on the handshake reply"
+						case region == "recv" && e.Cause == "guard":
+							kind = "recv/guard"
+							st.ok, st.why = true, "verdict created under a guard on the reply"
+						default:
+							st.why = "a " + e.Cause + " failure in the " + region + " region"
+						}
+						if kind != "" && kind != "setup/dial" && !seen[kind+"|"+e.Origin] {
+							seen[kind+"|"+e.Origin] = true
+							counts[kind]++
+						}
+						if kind == "setup/dial" {
+							counts[kind] = 1
+						}
+						sites = append(sites, st)
 					}
-					if kind == "setup/dial" {
-						counts[kind] = 1
-					}
-					sites = append(sites, st)
 				}
 			}
 		}
 	}
 	return sites, counts, anchors
+}
+
+// ctorParam: the NotSupportedError literal behind mi wraps a parameter of its function directly (a constructor).
+func ctorParam(mi *ssa.MakeInterface) *ssa.Parameter {
+	al, ok := mi.X.(*ssa.Alloc)
+	if !ok {
+		return nil
+	}
+	for _, r := range *al.Referrers() {
+		fa, ok := r.(*ssa.FieldAddr)
+		if !ok || core.FieldName(fa) != "Err" {
+			continue
+		}
+		for _, r2 := range *fa.Referrers() {
+			if st, ok := r2.(*ssa.Store); ok && st.Addr == ssa.Value(fa) {
+				if p, ok := st.Val.(*ssa.Parameter); ok {
+					return p
+				}
+			}
+		}
+	}
+	return nil
 }
 
 func runC20(c *Ctx) {
@@ -148,29 +223,42 @@ func checkSelector(c *Ctx) []string {
 		return nil
 	}
 	fn := core.FuncName(f)
-	rps, complete := core.ReturnPaths(c.P, f, 5000)
-	if !complete {
-		R.Fail("R20.1", fn+"#enumeration", f.Pos(), fn, "too many paths: undecided")
+	// inlined paths: the decision table is read off the selector with its helpers (a prefer_sack helper taking the two
+	// implementations as function values, ...) opened; an implementation call is a call of one of the selector's own function
+	// parameters, the method is the selector's TCPMethod-typed parameter whatever it is called
+	ips := InlinedPaths(c.P, f, inlineOpts{pkg: core.FuncPkg(f)})
+	if len(ips) == 0 {
+		R.Fail("R20.1", fn+"#enumeration", f.Pos(), fn, "paths cannot be enumerated: undecided")
 		return nil
 	}
-	pname := map[ssa.Value]string{}
+	methodParam := ""
+	fnParams := map[string]bool{}
 	for _, p := range f.Params {
-		pname[p] = p.Name()
+		if _, isSig := p.Type().Underlying().(*types.Signature); isSig {
+			fnParams["param:"+p.Name()] = true
+		} else if b, ok := p.Type().Underlying().(*types.Basic); ok && b.Kind() == types.String {
+			methodParam = "param:" + p.Name()
+		}
+	}
+	type rowRP struct {
+		Results []*core.Term
+		Atoms   []core.Atom
+		Ret     *ssa.Return
+		Path    string
 	}
 	type row struct {
 		method string
 		calls  []string
 		asNS   string // "true" "false" ""
-		rp     core.RetPath
+		rp     rowRP
 	}
 	var rows []row
-	for _, rp := range rps {
-		r := row{method: "<other>", rp: rp}
-		for _, a := range rp.Atoms {
+	for _, ip := range ips {
+		r := row{method: "<other>", rp: rowRP{ip.Results, ip.Atoms, ip.Ret, ip.Desc}}
+		for _, a := range ip.Atoms {
 			n := a.Norm()
 			if n.Sign && n.Cond.Op == "binop" && n.Cond.Name == "==" && n.Cond.Args[1].Op == "const" && strings.HasPrefix(n.Cond.Args[1].Name, "\"") {
-				lhs := n.Cond.Args[0].String()
-				if lhs == "param:tcpMethod" {
+				if n.Cond.Args[0].String() == methodParam {
 					m := strings.Trim(n.Cond.Args[1].Name, "\"")
 					if m == "" {
 						continue
@@ -183,17 +271,13 @@ func checkSelector(c *Ctx) []string {
 			}
 		}
 		// the empty string is rewritten to "syn"
-		f1, s1 := atomTrue(rp.Atoms, func(t *core.Term) bool { return t.String() == "(param:tcpMethod == \"\")" })
+		f1, s1 := atomTrue(ip.Atoms, func(t *core.Term) bool { return t.String() == "("+methodParam+" == \"\")" })
 		if f1 && s1 {
 			r.method = "<empty→syn>"
 		}
-		for _, b := range rp.Path.Blocks {
-			for _, in := range b.Instrs {
-				if call, ok := in.(*ssa.Call); ok {
-					if n, ok := pname[call.Common().Value]; ok {
-						r.calls = append(r.calls, n)
-					}
-				}
+		for _, ev := range ip.Events {
+			if ev.Kind == "call" && len(ev.Args) > 0 && fnParams[ev.Args[0].String()] {
+				r.calls = append(r.calls, strings.TrimPrefix(ev.Args[0].String(), "param:"))
 			}
 		}
 		rows = append(rows, r)
@@ -204,7 +288,7 @@ func checkSelector(c *Ctx) []string {
 	for _, r := range rows {
 		seen[r.method] = true
 		key := fmt.Sprintf("%s#method[%s]", fn, r.method)
-		pstr := r.rp.Path.String()
+		pstr := r.rp.Path
 		for _, cl := range r.calls {
 			if cl == "doSack" {
 				sackRouted = append(sackRouted, r.method)
@@ -229,7 +313,15 @@ func checkSelector(c *Ctx) []string {
 					R.Check(okCalls && r1.IsConst("nil") && r.rp.Results[0].Op == "extract", "R20.1", key+"/ok", r.rp.Ret.Pos(), fn, "SACK success is returned as is", "SACK success path returns "+r.rp.Results[0].String()+" after calls ["+strings.Join(r.calls, ",")+"]")
 				}
 			default:
-				R.FailPath("R20.1", key, r.rp.Ret.Pos(), fn, "prefer_sack path does not consult errors.As for *sack.NotSupportedError", pstr)
+				// `if err == nil { return res, nil }` before the classification: errors.As(nil, …) is false anyway
+				f1, s1 := atomTrue(r.rp.Atoms, func(t *core.Term) bool {
+					return t.Op == "binop" && t.Name == "==" && t.Args[1].IsConst("nil") && t.Args[0].Op == "extract" && t.Args[0].Name == "1"
+				})
+				if f1 && s1 {
+					R.Check(strings.Join(r.calls, ",") == "doSack" && r1.IsConst("nil") && r.rp.Results[0].Op == "extract", "R20.1", key+"/ok", r.rp.Ret.Pos(), fn, "SACK success is returned as is", "SACK success path returns "+r.rp.Results[0].String()+" after calls ["+strings.Join(r.calls, ",")+"]")
+				} else {
+					R.FailPath("R20.1", key, r.rp.Ret.Pos(), fn, "prefer_sack path does not consult errors.As for *sack.NotSupportedError", pstr)
+				}
 			}
 			continue
 		}
@@ -258,11 +350,16 @@ func checkSelector(c *Ctx) []string {
 	}
 	// errors.As target type
 	okT := false
-	for _, b := range f.Blocks {
-		for _, in := range b.Instrs {
-			if al, ok := in.(*ssa.Alloc); ok {
-				if p, ok := al.Type().(*types.Pointer).Elem().(*types.Pointer); ok && wrapperTag(p) == "NotSupported" {
-					okT = true
+	for _, g := range ModReach(c.P, f) {
+		if core.FuncPkg(g) != core.FuncPkg(f) {
+			continue
+		}
+		for _, b := range g.Blocks {
+			for _, in := range b.Instrs {
+				if al, ok := in.(*ssa.Alloc); ok {
+					if p, ok := al.Type().(*types.Pointer).Elem().(*types.Pointer); ok && wrapperTag(p) == "NotSupported" {
+						okT = true
+					}
 				}
 			}
 		}
@@ -456,72 +553,96 @@ func checkE2eOverride(c *Ctx, sackMethods []string) {
 		return
 	}
 	n := 0
-	for _, b := range f.Blocks {
-		for _, in := range b.Instrs {
-			call, ok := in.(*ssa.Call)
-			if !ok || call.Common().StaticCallee() != nil || call.Common().IsInvoke() {
+	// inlined paths: the override may be computed by a helper of the package (a parameter-copying function, a method chooser)
+	for _, ip := range InlinedPaths(c.P, f, inlineOpts{pkg: core.FuncPkg(f), stop: workSignature}) {
+		for _, ev := range ip.Events {
+			if ev.Kind != "call" || ev.Callee != "dyn" || len(ev.Args) < 3 || !strings.Contains(ev.Args[0].String(), "runTracerouteOnceFn") {
 				continue
 			}
-			// the per-run function variable
-			ld, ok := call.Common().Value.(*ssa.UnOp)
-			if !ok {
-				continue
-			}
-			if g, ok := ld.X.(*ssa.Global); !ok || g.Name() != "runTracerouteOnceFn" {
-				continue
-			}
-			paths, _ := core.EnumPaths(f, b, 2000)
-			for _, pa := range paths {
-				env := core.NewEnv(c.P, pa)
-				atoms := env.Atoms()
-				if !core.Feasible(atoms) {
-					continue
+			atoms := ip.Atoms
+			n++
+			pt := ev.Args[2]
+			m := core.ProjField(pt, "TCPMethod")
+			proto := core.ProjField(pt, "Protocol")
+			key := fmt.Sprintf("%s#e2e-method", fn)
+			switch {
+			case m.Op == "const":
+				val := strings.Trim(m.Name, "\"")
+				bad := false
+				for _, s := range sackMethods {
+					if s == val {
+						bad = true
+					}
 				}
-				n++
-				pt := env.Term(call.Common().Args[1])
-				m := core.ProjField(pt, "TCPMethod")
-				proto := core.ProjField(pt, "Protocol")
-				key := fmt.Sprintf("%s#e2e-method", fn)
-				switch {
-				case m.Op == "const":
-					val := strings.Trim(m.Name, "\"")
-					bad := false
-					for _, s := range sackMethods {
-						if s == val {
-							bad = true
+				R.Check(!bad && val == "syn", "R20.5", key, ev.Instr.Pos(), fn, "method rewritten to syn before the per-run function", "e2e probes run with method "+m.Name)
+			default:
+				// unmodified: the path must exclude every SACK-routing method, or a non-tcp protocol
+				excluded := map[string]bool{}
+				nonTCP := false
+				for _, a := range atoms {
+					nn := a.Norm()
+					if nn.Cond.Op == "binop" && nn.Cond.Name == "==" && nn.Cond.Args[1].Op == "const" {
+						if nn.Cond.Args[0].Key() == m.Key() && !nn.Sign {
+							excluded[strings.Trim(nn.Cond.Args[1].Name, "\"")] = true
+						}
+						if nn.Cond.Args[0].Key() == proto.Key() && nn.Cond.Args[1].Name == "\"tcp\"" && !nn.Sign {
+							nonTCP = true
 						}
 					}
-					R.Check(!bad && val == "syn", "R20.5", key, call.Pos(), fn, "method rewritten to syn before the per-run function", "e2e probes run with method "+m.Name)
-				default:
-					// unmodified: the path must exclude every SACK-routing method, or a non-tcp protocol
-					excluded := map[string]bool{}
-					nonTCP := false
-					for _, a := range atoms {
-						nn := a.Norm()
-						if nn.Cond.Op == "binop" && nn.Cond.Name == "==" && nn.Cond.Args[1].Op == "const" {
-							if nn.Cond.Args[0].Key() == m.Key() && !nn.Sign {
-								excluded[strings.Trim(nn.Cond.Args[1].Name, "\"")] = true
-							}
-							if nn.Cond.Args[0].Key() == proto.Key() && nn.Cond.Args[1].Name == "\"tcp\"" && !nn.Sign {
-								nonTCP = true
-							}
-						}
-					}
-					all := true
-					var miss []string
-					for _, s := range sackMethods {
-						if !excluded[s] {
-							all = false
-							miss = append(miss, s)
-						}
-					}
-					R.Check(all || nonTCP, "R20.5", key, call.Pos(), fn, "method left unchanged only when it is not SACK-routed (or the protocol is not tcp)", fmt.Sprintf("an e2e probe can reach the per-run function with a SACK-routing method (%v not rewritten to syn); selector routes %v to SACK", miss, sackMethods))
 				}
-				// MinTTL = MaxTTL (C19 R19.4 shares this)
-				mn, mx := core.ProjField(pt, "MinTTL"), core.ProjField(pt, "MaxTTL")
-				R.Check(mn.Key() == mx.Key(), "R20.5", fn+"#single-probe", call.Pos(), fn, "MinTTL = MaxTTL for e2e probes", "e2e probe does not set MinTTL = MaxTTL: "+mn.String()+" vs "+mx.String())
+				all := true
+				var miss []string
+				for _, s := range sackMethods {
+					if !excluded[s] {
+						all = false
+						miss = append(miss, s)
+					}
+				}
+				R.Check(all || nonTCP, "R20.5", key, ev.Instr.Pos(), fn, "method left unchanged only when it is not SACK-routed (or the protocol is not tcp)", fmt.Sprintf("an e2e probe can reach the per-run function with a SACK-routing method (%v not rewritten to syn); selector routes %v to SACK", miss, sackMethods))
 			}
+			// MinTTL = MaxTTL (C19 R19.4 shares this)
+			mn, mx := core.ProjField(pt, "MinTTL"), core.ProjField(pt, "MaxTTL")
+			R.Check(mn.Key() == mx.Key(), "R20.5", fn+"#single-probe", ev.Instr.Pos(), fn, "MinTTL = MaxTTL for e2e probes", "e2e probe does not set MinTTL = MaxTTL: "+mn.String()+" vs "+mx.String())
 		}
 	}
 	R.Floor("R20.5:per-run-call-paths", n, 2)
+}
+
+// ctorResultParam: g is a straight-line constructor returning &NotSupportedError{Err: <its parameter #i>}; returns i or -1.
+func ctorResultParam(g *ssa.Function) int {
+	if g == nil || !core.InModule(g) || len(g.Blocks) == 0 || len(g.Blocks) > 2 {
+		return -1
+	}
+	blk := g.Blocks[0]
+	ret, ok := blk.Instrs[len(blk.Instrs)-1].(*ssa.Return)
+	if !ok || len(ret.Results) != 1 {
+		return -1
+	}
+	al, ok := ret.Results[0].(*ssa.Alloc)
+	if !ok || wrapperTag(al.Type()) != "NotSupported" {
+		if mi, ok2 := ret.Results[0].(*ssa.MakeInterface); ok2 {
+			al, ok = mi.X.(*ssa.Alloc)
+		}
+		if !ok || al == nil || wrapperTag(al.Type()) != "NotSupported" {
+			return -1
+		}
+	}
+	for _, r := range *al.Referrers() {
+		fa, ok := r.(*ssa.FieldAddr)
+		if !ok || core.FieldName(fa) != "Err" {
+			continue
+		}
+		for _, r2 := range *fa.Referrers() {
+			if st, ok := r2.(*ssa.Store); ok && st.Addr == ssa.Value(fa) {
+				if p, ok := st.Val.(*ssa.Parameter); ok {
+					for i, q := range g.Params {
+						if q == p {
+							return i
+						}
+					}
+				}
+			}
+		}
+	}
+	return -1
 }
